@@ -208,6 +208,18 @@ Proof.
 Qed.
 Print Assumptions C14_lazy_project.
 
+(* ------------------------------------------------------------------ chains of transforms *)
+
+(* every tensor of a well-formed chain (each step applied to ANY earlier tensor, also to one
+   that has already been an operand) reports the documented re-arrangement of its operand's
+   attributes: what a tensor reports is a function of its operand's attributes only, so no later
+   step can change it *)
+Theorem C14_chain_attrs : forall steps acc,
+  chain_wf acc steps = true ->
+  chain_run xform_attrs acc steps = chain_run xform_spec acc steps.
+Proof. exact chain_run_spec. Qed.
+Print Assumptions C14_chain_attrs.
+
 (* ------------------------------------------------------------------ model meets oracle *)
 Theorem C14_model_meets_spec : forall c,
   c14_wf c = true -> holds c14_checker c (model c14_checker c) = true.
